@@ -295,9 +295,40 @@ def mutation_isolation(rep, vecs):
             return
 
 
+def empty_data(rep, ref):
+    """every string-typed dictionary AVP with zero octets of data (legal on the wire): when the stream is decoded, the AVP comes back
+    with no data and the message re-encodes to the bytes received (a refusal is counted, not judged: C10's dispatch table does that)"""
+    from bromelia.base import DiameterMessage
+    refused = 0
+    for name, e in sorted(ref.items()):
+        if e["type"].replace("Type", "") not in ("OctetString", "UTF8String", "DiameterIdentity"):
+            continue
+        avp = e["code"].to_bytes(4, "big") + bytes([e["flags"]]) + (12 if e["vendor"] is not None else 8).to_bytes(3, "big") + \
+            (e["vendor"].to_bytes(4, "big") if e["vendor"] is not None else b"")
+        tail = (264).to_bytes(4, "big") + b"\x40" + (11).to_bytes(3, "big") + b"h.e" + b"\x00"
+        raw = bytes([1]) + (20 + len(avp) + len(tail)).to_bytes(3, "big") + bytes([0x80]) + (316).to_bytes(3, "big") + (16777251).to_bytes(4, "big") + bytes(8) + avp + tail
+        rep.case(("empty-data", name))
+        try:
+            with guard(20, "load"):
+                msgs = DiameterMessage.load(raw)
+        except BaseException:
+            refused += 1
+            continue
+        replay = {"kind": "stream", "bytes": raw.hex()}
+        if len(msgs) != 1 or len(msgs[0].avps) != 2:
+            rep.violation(f"a message carrying {name} with zero octets of data decodes to {len(msgs)} message(s) / {len(msgs[0].avps) if msgs else 0} AVPs", replay)
+            continue
+        a = msgs[0].avps[0]
+        if a.data not in (b"", None) or msgs[0].dump() != raw:
+            rep.violation(f"{name} received with zero octets of data comes back with data {a.data!r}; the decoded message re-encodes to {len(msgs[0].dump())} bytes, "
+                          f"{len(raw)} were received", replay)
+    rep.notes["empty_data_avps_refused"] = refused
+
+
 def run(rep):
     purity(rep)
     ref = wirex.ref_dictionary()
+    empty_data(rep, ref)
     dev = "{\"D_Reflag\"}" if any(f["id"] == REFLAG for f in rep.findings) else "{}"
     rep.notes["specification_deviations_enabled"] = dev
     maxdepth = 2 if rep.tier == "quick" else 3
